@@ -74,6 +74,8 @@ def dispatch (c : Conf) (op : String) (args : List String) (got : String) : Opti
     | none => none) <|> (match c.pc4m with
     | some e => (C04.handleMap e op args got) <|> (C04.handleLine e op args got)
     | none => none) <|> (match c.pc with
+    | some e => C12V.handleMul e c.ep c.ep2 c.w op args got
+    | none => none) <|> (match c.pc with
     | some e => C12.handle e c.w op args got
     | none => none) <|> (C06.handle c.cp c.ep op args got) <|> (match c.map with
     | some e => C13.handle e c.size c.w op args got
